@@ -85,8 +85,8 @@ class TVCheck:
                 return s
         return summarize(r)
 
-    def run(self, programs, jobs, meta, extra_assumptions=()):
-        rep = Report(self.prop, self.tier, self.seed, self.level)
+    def run(self, programs, jobs, meta, extra_assumptions=(), rep=None):
+        rep = rep or Report(self.prop, self.tier, self.seed, self.level)
         results = pmap(self.work, programs, jobs)
         statuses = {}
         distinct_nontrivial = 0
